@@ -43,7 +43,7 @@ func vxH_C04_reopen() {
 
 	vxObserveInt("files", len(fs.names()))
 	for _, n := range fs.names() {
-		vxObserveInt("size", len(fs.files[n].data))
+		vxObserveInt("size", len(fs.content(n)))
 	}
 	store2, coll2, err := OpenStoreCollection(fs.dir, so, po)
 	vxAssert("reopen-ok", err == nil)
